@@ -121,34 +121,44 @@ def key_tag(ctx, report):
     report.touch(f)
     cons = f.construct
     state = {}
+    from ..miniexec import class_call_hook
+
+    class Record(Native):
+        # the record under evaluation: algorithm, key parameters and compose() are the sample's; helper methods the class
+        # defines (a summing helper, a folding helper ...) are evaluated from their own statements through the MRO
+        def __init__(self, alg, rdata, modulus):
+            self.algorithm = alg
+            self.key = Obj(params=Obj(modulus=modulus))
+            self._rdata = rdata
+
+        def compose(self):
+            state['composed'] = True
+            return self._rdata
 
     def names(name):
-        if name == 'self.algorithm':
-            return state['alg']
         if name.startswith('DnsSecAlgorithm.'):
             return name.split('.', 1)[1]
         if name.startswith('ByteOrder.'):
             return name
-        if name == 'self.key.params.modulus':
-            return state['modulus']
         raise Unsupported('free name %s' % name)
 
-    def hook(n, ev):
+    def extra(n, ev):
         d = ast.unparse(n.func)
-        if d == 'self.compose':
-            state['composed'] = True
-            return state['rdata']
         if d == 'ParserBinary':
             data = ev.ev(n.args[0])
             kw = {k.arg: ev.ev(k.value) for k in n.keywords}
-            order = kw.get('byte_order', 'ByteOrder.NETWORK')
+            order = kw.get('byte_order', ev.ev(n.args[1]) if len(n.args) > 1 else 'ByteOrder.NETWORK')
             big = order in ('ByteOrder.BIG_ENDIAN', 'ByteOrder.NETWORK')
             return _TagParser(data, 'big' if big else 'little')
+        if d in ('six.iterbytes', 'six.indexbytes'):
+            args = [ev.ev(a) for a in n.args]
+            return list(bytes(args[0])) if d.endswith('iterbytes') else bytes(args[0])[args[1]]
         return NotImplemented
+    hook = class_call_hook(c, extra, ctx.model)
 
     def run(alg, rdata=b'', modulus=0):
-        state.update(alg=alg, rdata=rdata, modulus=modulus, composed=False)
-        ev = Evaluator({}, hook, names)
+        state.update(composed=False)
+        ev = Evaluator({'self': Record(alg, rdata, modulus)}, hook, hook.name_hook_for(c.module, names))
         return Evaluator.function(ev, f.node)
     bad = {'even': [], 'odd': []}
     try:
